@@ -36,12 +36,38 @@ Section World.
     prox : nat -> R -> E -> E;
     proxval : nat -> R -> E -> R;
     prox_genuine : forall f gamma x0, has_prox f = true -> 0 < gamma ->
-      Gen f (prox f gamma x0, vscal (1 / gamma) (vsub x0 (prox f gamma x0)), proxval f gamma x0)
+      Gen f (prox f gamma x0, vscal (1 / gamma) (vsub x0 (prox f gamma x0)), proxval f gamma x0);
+    (* linear minimisation oracle of the functions that have one (indicators of sets): [lmo f d] is a minimiser
+       of <d, .> over the set together with the function value there; specification: that point with -d is a
+       genuine sample (-d is in the normal cone of the set at a minimiser of <d, .>: C08's theorem, used when a
+       world is built) *)
+    has_lmo : nat -> bool;
+    lmo : nat -> E -> E * R;
+    lmo_genuine : forall f d, has_lmo f = true -> Gen f (fst (lmo f d), vneg d, snd (lmo f d));
+    (* inexact gradients: [inexact f relative eps x] is the direction an inexact first-order oracle of accuracy eps
+       returns at x (absolute: |g - d|^2 <= eps^2; relative: <= eps^2 |g|^2, g the oracle's output at x).  Every
+       world has one (the exact output), so no flag is needed. *)
+    inexact : nat -> bool -> R -> E -> E;
+    inexact_bound : forall f relative eps x,
+      nrm2 (vsub (fst (orc f x)) (inexact f relative eps x))
+      <= eps ^ 2 * (if relative then nrm2 (fst (orc f x)) else 1);
+    (* exact line / span search of the functions that have one: [linesearch f x0 ds] minimises f over
+       x0 + span ds; specification: the oracle's output there is orthogonal to x - x0 and to every direction
+       (for a differentiable function: C08's theorem, used when a world is built) *)
+    has_ls : nat -> bool;
+    linesearch : nat -> E -> list E -> E;
+    ls_orth : forall f x0 ds, has_ls f = true ->
+      let x := linesearch f x0 ds in
+      inner (vsub x x0) (fst (orc f x)) = 0 /\ forall d, In d ds -> inner d (fst (orc f x)) = 0
   }.
 
-  (** the program takes proximal steps only on functions of the world that have a proximal operator *)
-  Definition prox_ok (W : world) (ops : list mop) : bool :=
-    forallb (fun o => match o with MProx f _ _ => has_prox W f | _ => true end) ops.
+  (** the program takes proximal / linear-optimization / line-search steps only on functions of the world that
+      have a proximal operator / a linear minimisation oracle / an exact line search *)
+  Definition step_ok (W : world) (o : mop) : bool :=
+    match o with
+    | MProx f _ _ => has_prox W f | MLinOpt f _ => has_lmo W f | MLineSearch f _ _ => has_ls W f | _ => true
+    end.
+  Definition steps_ok (W : world) (ops : list mop) : bool := forallb (step_ok W) ops.
 
   Definition upd {A} (h : nat -> A) (k : nat) (a : A) : nat -> A :=
     fun i => if Nat.eqb i k then a else h i.
@@ -63,6 +89,20 @@ Section World.
         let g := Q2R gamma in
         (upd (fst vs) (m_np s) (vscal (1 / g) (vsub x0 (prox W f g x0))),
          upd (snd vs) (m_ne s) (proxval W f g x0))
+    | MLinOpt f dir =>
+        (* the fresh point leaf gets a minimiser of <d, .> over the set, the fresh value leaf the value there *)
+        let d := evalP (fst vs) dir in
+        (upd (fst vs) (m_np s) (fst (lmo W f d)), upd (snd vs) (m_ne s) (snd (lmo W f d)))
+    | MInexact f p relative eps =>
+        (* as MEval for the gradient and value leaves; the fresh leaf dx0 gets the inexact direction *)
+        let x := evalP (fst vs) p in
+        (upd (upd (fst vs) (m_np s) (fst (orc W f x))) (S (m_np s)) (inexact W f relative (Q2R eps) x),
+         upd (snd vs) (m_ne s) (snd (orc W f x)))
+    | MLineSearch f x0 dirs =>
+        (* the fresh point leaf gets the line-search minimiser, then as MEval at it *)
+        let x := linesearch W f (evalP (fst vs) x0) (map (evalP (fst vs)) dirs) in
+        (upd (upd (fst vs) (m_np s) x) (S (m_np s)) (fst (orc W f x)),
+         upd (snd vs) (m_ne s) (snd (orc W f x)))
     end.
 
   Fixpoint wrun (W : world) (ops : list mop) (s : mstate) (vs : (nat -> E) * (nat -> R))
